@@ -66,37 +66,33 @@ Print Assumptions c07_total.
 
 (* ---- readers that deliver the last bytes together with the end error ----
    (n > 0 and err = io.EOF in one Read call: allowed by the io.Reader contract,
-   done by quic-go streams and iotest.DataErrReader; de = true in the model)
+   done by quic-go streams and iotest.DataErrReader; de = true in the model).
+   readAtLeast counts the bytes before it looks at the error (repaired in /repo
+   commit "readAtLeast ... n += nr first"), so the kind of reader is irrelevant:
+   every theorem above about handle_incoming holds for handle_incoming_de de. *)
+Theorem c07_reader_kind_irrelevant : forall de local remote s,
+  handle_incoming_de de local remote s = handle_incoming local remote s.
+Proof. exact handle_incoming_de_indep. Qed.
+Print Assumptions c07_reader_kind_irrelevant.
 
-   Full statement, which the code does NOT satisfy for such readers:
-     forall pid payload ch local remote, pid_ok pid -> size within limit ->
-       handle_incoming_de true local remote (ch, marshal_header pid ++ payload)
-       = Dispatch pid local remote payload.
-   It holds whenever something follows the header (_partial) and fails for
-   every header-only stream (_refuted): readAtLeast in establish-header.go
-   tests err before counting nr and drops the final bytes. *)
-Theorem c07_chunking_independent_dataerr : forall de local remote ch1 ch2 D,
-  handle_incoming_de de local remote (ch1, D) = handle_incoming_de de local remote (ch2, D).
+Theorem c07_chunking_independent_any_reader : forall de1 de2 local remote ch1 ch2 D,
+  handle_incoming_de de1 local remote (ch1, D) = handle_incoming_de de2 local remote (ch2, D).
 Proof. intros. rewrite !handle_incoming_de_pure. reflexivity. Qed.
-Print Assumptions c07_chunking_independent_dataerr.
+Print Assumptions c07_chunking_independent_any_reader.
 
-Theorem c07_roundtrip_dataerr_partial : forall pid payload ch local remote,
-  pid_ok pid -> Z.of_nat (length (marshal_body pid)) <= stream_establish_max -> payload <> [] ->
-  handle_incoming_de true local remote (ch, marshal_header pid ++ payload) = Dispatch pid local remote payload.
+(* the round trip at full strength: every valid protocol ID within the limit,
+   every payload INCLUDING the empty one, every chunking, both kinds of reader *)
+Theorem c07_roundtrip_any_reader : forall de pid payload ch local remote,
+  pid_ok pid -> Z.of_nat (length (marshal_body pid)) <= stream_establish_max ->
+  handle_incoming_de de local remote (ch, marshal_header pid ++ payload) = Dispatch pid local remote payload.
 Proof. exact handle_de_roundtrip. Qed.
-Print Assumptions c07_roundtrip_dataerr_partial.
+Print Assumptions c07_roundtrip_any_reader.
 
-Theorem c07_roundtrip_dataerr_refuted : forall pid ch local remote,
-  pid <> [] -> Z.of_nat (length (marshal_body pid)) <= stream_establish_max ->
-  handle_incoming_de true local remote (ch, marshal_header pid) = Closed E_EOF.
-Proof. exact handle_de_header_only. Qed.
-Print Assumptions c07_roundtrip_dataerr_refuted.
-
-Example c07_dataerr_witness :
-  pid_ok [97] /\ Z.of_nat (length (marshal_body [97])) <= stream_establish_max /\
-  handle_incoming [1] [2] ([]%nat, marshal_header [97] ++ []) = Dispatch [97] [1] [2] [] /\
-  handle_incoming_de true [1] [2] ([]%nat, marshal_header [97] ++ []) = Closed E_EOF.
-Proof. repeat split; try discriminate; vm_compute; reflexivity. Qed.
+Example c07_header_only_stream_example :
+  handle_incoming_de true [1] [2] ([1; 1]%nat, marshal_header [97] ++ []) = Dispatch [97] [1] [2] [] /\
+  handle_incoming_de true [1] [2] ([]%nat, marshal_header [97; 98]) = Dispatch [97; 98] [1] [2] [] /\
+  handle_incoming_de true [1] [2] ([]%nat, firstn 3 (marshal_header [97; 98])) = Closed E_EOF.
+Proof. repeat split; vm_compute; reflexivity. Qed.
 
 (* non-vacuity *)
 Example c07_pid_ok_example : pid_ok [47; 195; 169; 240; 159; 152; 128] /\ ~ pid_ok [] /\ ~ pid_ok [237; 160; 128].
